@@ -233,6 +233,7 @@ type Outcome struct {
 	Visits     []uint32 `json:"-"`
 	EstSteps   int64
 	LogHash    uint64 // hash of everything observable about the run (determinism self-test)
+	HistFuncs  []string `json:"history_funcs,omitempty"` // cache-full handling functions entered in the reference pass or the concurrent phase
 }
 
 func trunc(s string, n int) string {
@@ -359,6 +360,22 @@ func runConc(sc *Scenario, st *SiteTable, raceLog *raceLogReader) *Outcome {
 			out.Class = "input_modified"
 			out.Detail = fmt.Sprintf("haystack %d changed during the run", i)
 		}
+	}
+	if globalSites != nil && len(globalSites.Sites) > 16 {
+		seen := map[string]bool{}
+		for _, vis := range [][]uint32{refRes.SiteVisits, sres.SiteVisits} {
+			for _, f := range visitedFuncs(vis) {
+				for _, w := range cacheFullFuncs {
+					if f == w {
+						seen[f] = true
+					}
+				}
+			}
+		}
+		for f := range seen {
+			out.HistFuncs = append(out.HistFuncs, f)
+		}
+		sortStrings(out.HistFuncs)
 	}
 	for w := range got {
 		for i := range got[w] {
